@@ -130,6 +130,19 @@ def findall_body(cfg):
             ref = _call(search.find, nodes[s], filter_=filt, stop=stop, maxlevel=maxlevel)
         if not _same(nodes, res, ref):
             return {"why": "cachedsearch differs from search", "fn": which}
+        # the same call (same argument objects) after the tree changed must reflect the current tree
+        if n >= 2:
+            victim = nodes[(s + 1) % n] if (s + 1) % n != s else None
+            if victim is not None and victim.parent is not None:
+                victim.parent = None
+                if which == "findall":
+                    again = _call(mod.findall, nodes[s], filter_=filt, stop=stop, maxlevel=maxlevel, mincount=mincount, maxcount=maxcount)
+                    ref2 = _call(search.findall, nodes[s], filter_=filt, stop=stop, maxlevel=maxlevel, mincount=mincount, maxcount=maxcount)
+                else:
+                    again = _call(mod.find, nodes[s], filter_=filt, stop=stop, maxlevel=maxlevel)
+                    ref2 = _call(search.find, nodes[s], filter_=filt, stop=stop, maxlevel=maxlevel)
+                if not _same(nodes, again, ref2):
+                    return {"why": "cachedsearch returns a stale result after the tree changed", "fn": which}
     return True
 
 
